@@ -240,6 +240,12 @@ func (it *TxnIterator) advance() {
 			}
 		}
 		if !it.materializeEntry(entry, cf, userKey, version) {
+			// The newest visible version of this key is a tombstone or has expired:
+			// the key is not live in this snapshot, so its older versions must not
+			// surface in its place (forward scans meet versions newest first).
+			if !it.opt.AllVersions && !it.opt.Reverse {
+				it.lastKey = append(it.lastKey[:0], userKey...)
+			}
 			it.iitr.Next()
 			continue
 		}
